@@ -11,6 +11,7 @@ import (
 	"gitee.com/Trisia/gotlcp/dtlcp"
 	"gitee.com/Trisia/gotlcp/tlcp"
 	"verifharness/internal/hx"
+	"verifharness/internal/resume"
 )
 
 // cache abstracts over the two stacks (identical code, different types).
@@ -114,8 +115,88 @@ func unkey(k string) string {
 	return k
 }
 
+// executeConn runs a history of real, honest client handshakes (phase conn) through a client
+// cache of the given capacity wrapped in a recording cache, and returns the recorded
+// Put/Get trace in the op syntax of this check together with each handshake's outcome.
+func executeConn(desc, hist string) string {
+	stack, _ := hx.KV(desc, "stack")
+	capacity := hx.KVInt(desc, "cap")
+	var obs string
+	if p := hx.Guard(func() {
+		h := resume.ParseHist(hist)
+		render := func(ops, outs, state, hs string) {
+			obs = fmt.Sprintf("ops=%s outs=%s %s hs=%s", ops, outs, state, hs)
+		}
+		if stack == "dtlcp" {
+			r := resume.NewRunner(resume.DTLCP, capacity, 4, 1)
+			r.NoCtl = true
+			r.Run(h)
+			ops, outs := r.Trace()
+			render(ops, outs, r.CacheState(), r.HSResults())
+		} else {
+			r := resume.NewRunner(resume.TLCP, capacity, 4, 1)
+			r.NoCtl = true
+			r.Run(h)
+			ops, outs := r.Trace()
+			render(ops, outs, r.CacheState(), r.HSResults())
+		}
+	}); p != "" {
+		return "panic=" + p
+	}
+	return obs
+}
+
+// connCases generates the histories of phase conn: only fault-free connections between
+// configurations that share a suite, so every handshake is expected to succeed.
+func connCases(o hx.Opts, emit func(string)) {
+	honest := func(pre string, dst int) string {
+		return fmt.Sprintf("%s/d%d/s%d/e053.e013/e053.e013/ok", pre, dst, dst)
+	}
+	stacks := []string{"tlcp", "dtlcp"}
+	// witnesses first: F5 (capacity 1; capacity 2 with one unrelated Put in between)
+	for _, st := range stacks {
+		for cp := 1; cp <= 4; cp++ {
+			emit(fmt.Sprintf("stack=%s cap=%d hist=%s", st, cp, strings.Join([]string{honest("-", 0), honest("-", 0), honest("-", 0)}, ",")))
+		}
+		emit(fmt.Sprintf("stack=%s cap=2 hist=%s", st, strings.Join([]string{honest("-", 0), honest("j1", 0), honest("-", 0)}, ",")))
+		emit(fmt.Sprintf("stack=%s cap=3 hist=%s", st, strings.Join([]string{honest("-", 0), honest("-", 1), honest("-", 0), honest("-", 1)}, ",")))
+	}
+	r := hx.NewRand(o.Seed + 77)
+	n := 150 * o.Scale
+	if o.Tier == "thorough" {
+		n = 4000 * o.Scale
+	}
+	for i := 0; i < n; i++ {
+		st := "tlcp"
+		if i%4 == 3 {
+			st = "dtlcp"
+		}
+		cp := 1 + r.Intn(4)
+		ln := 1 + r.Intn(6)
+		cs := make([]string, ln)
+		for j := range cs {
+			pre := "-"
+			switch x := r.Intn(100); {
+			case x < 25:
+				pre = fmt.Sprintf("j%d", 1+r.Intn(cp+1))
+			case x < 32:
+				pre = "sl"
+			case x < 39:
+				pre = "fg"
+			case x < 46:
+				pre = fmt.Sprintf("st%d", r.Intn(2))
+			}
+			cs[j] = honest(pre, r.Intn(2))
+		}
+		emit(fmt.Sprintf("stack=%s cap=%d hist=%s", st, cp, strings.Join(cs, ",")))
+	}
+}
+
 // execute one case description and return the observation
 func execute(desc string) string {
+	if hist, ok := hx.KV(desc, "hist"); ok {
+		return executeConn(desc, hist)
+	}
 	stack, _ := hx.KV(desc, "stack")
 	capacity := hx.KVInt(desc, "cap")
 	opsStr, _ := hx.KV(desc, "ops")
@@ -206,12 +287,16 @@ func main() {
 		}
 		return
 	}
+	if o.Phase == "conn" {
+		connCases(o, emit)
+		return
+	}
 
 	// 1. the documented witnesses (always first)
 	for _, st := range []string{"tlcp", "dtlcp"} {
-		emit("stack=" + st + " cap=2 ops=P.a.2,P.b.3,P.zz.nil,G.a,G.zz")   // F17
-		emit("stack=" + st + " cap=1 ops=P.sid.7,P.dst.7,G.dst")           // F5 pattern (aliasing)
-		emit("stack=" + st + " cap=0 ops=P.a.2,G.a,G._")                   // default capacity
+		emit("stack=" + st + " cap=2 ops=P.a.2,P.b.3,P.zz.nil,G.a,G.zz") // F17
+		emit("stack=" + st + " cap=1 ops=P.sid.7,P.dst.7,G.dst")         // F5 pattern (aliasing)
+		emit("stack=" + st + " cap=0 ops=P.a.2,G.a,G._")                 // default capacity
 		emit("stack=" + st + " cap=-3 ops=P.a.2,P.a.nil,G.a,G._")
 	}
 
